@@ -74,3 +74,27 @@ PROPS["C10"] = dict(
     assumptions=["glibc strtod is correctly rounded and printf %.*f is exact round-half-even (validated by the correspondence on every run)",
                  "std::istringstream >> double accepts exactly the modelled syntax (validated likewise)"],
 )
+
+# ---- glue round (G10b): calendar, ParseLine, trim, val<bool/int>, readarray/writearray, GeoCoords accessors / alternate zone / string constructor
+PROPS["C10"]["rule"] += ("; GLUE: Utility::date -> day -> dow on EVERY day number of 1352-01-01 … 2427-01-01 (thorough: 0001-01-01 … 3300-12-31) as hashed scans compared with a "
+                         "day-by-day walk of the documented calendar and with the Lean model, day/date/day(check)/dow on anchors (1752-09-02/14, century Februaries, guards), valid and "
+                         "just-invalid dates, unnormalised months/days around year 0, the full guarded ranges; date strings and fractionalyear (yyyy, yyyy-mm, yyyy-mm-dd, malformed, "
+                         "mutated) against day-of-year/days-in-year from the walk; ParseLine on generated KEY [=] VALUE lines (equals NUL/'='/':'/' '/tab, comment '#'/NUL/';'/'%', "
+                         "inner spaces, comments, no-key lines, mutations); trim; val<bool> documented spellings in random case and near misses; val<int>; readarray/writearray for 8 "
+                         "type/endianness instantiations × sizes 0…2500 (buffer boundary 1024), array and vector forms, short streams; GeoCoords accessors, SetAltZone over all zone "
+                         "specifications and neighbouring zones, Alt* accessors and representations, explicit-hemisphere representations, the string constructor on every representation "
+                         "in both orders with ' ' ',' tab newline separators, centerp, malformed token counts; DMS::Decode(d,m,s) / Encode(ang,d,m[,s])")
+PROPS["C10"]["tolerances"].update({
+    "Utility::day/date/dow/day(check), date(string), ParseLine, trim, val<bool> words, token dispatch of GeoCoords::Reset": "exact (model = implementation); calendar also = independent day-by-day walk",
+    "fractionalyear": "bit-equal to the model (y + a/b in binary64), and within 4 ulp of y + (day of year − 1)/(days in year) from the walk",
+    "GeoCoords accessors / Alt* accessors": "bit-equal to UTMUPS::Forward at the same point with setzone = AltZone() (northing shifted into the reported hemisphere)",
+    "Alt / explicit-hemisphere representations re-parsed": "same zone, easting/northing within half a unit of the last printed digit + 4 ulp(1e7)",
+    "readarray/writearray": "bytes = independent big/little-endian encoding; read back identical; short stream ⇒ GeographicErr"})
+PROPS["C10"]["level_text"] += (" GLUE (new): calendar of Utility::day/date/dow as an Int model with C++'s truncating division (Model/Calendar.lean) — theorems date_day (for EVERY date of the "
+                               "documented calendar from 0001-01-01 on — Julian leap rule to 1752, Gregorian after, 1752-09-03…13 absent — date(day(y,m,d)) = (y,m,d); unbounded years), day_pos, "
+                               "dayChecked_accepts (day(…, check = true) accepts every valid date up to year 200000), switch_consistent (gregorian(y,m,d) = gregorian(day number) on valid dates), "
+                               "dow_periodic, calendar_anchors (0001-01-01 = day 1 = Saturday, 1752-09-02 Wed → 1752-09-14 Thu = day 639799, …). Not proved: day(date(s)) = s for all s ≥ 1 and the "
+                               "successor/monotonicity statement (both are checked exhaustively against the implementation and the model over the scanned range only); ParseLine / trim / val<bool> / "
+                               "GeoCoords token dispatch are executable models compared exactly with the implementation, with decided examples but no universally quantified parseLine_spec; "
+                               "GeoCoords accessors, alternate zone, representations, readarray/writearray, val<int>, DMS numeric helpers are oracles on the implementation only. Open finding F97: the "
+                               "string constructor of GeoCoords does not reduce the longitude to [-180, 180] as its documentation says.")
